@@ -10,6 +10,15 @@ b = s.index("## Appendix A.")
 head, body, tail = s[:a], s[a:b], s[b:]
 parts = re.split(r"(?m)^(?=### )", body)
 intro, secs = parts[0], parts[1:]
+def sec12_text(path):
+    """a report may be the bare section-12 entry (round 4) or a full report whose LAST '### Cxx' heading starts the entry (round 6)"""
+    t = open(path).read().strip()
+    hs = [m.start() for m in re.finditer(r"(?m)^### C\d\d", t)]
+    if hs:
+        t = t[hs[-1]:]
+    return t.strip() + "\n\n"
+
+
 latest = {}
 for rd in sorted(glob.glob(os.path.join(ROOT, "reports", "round*"))):
     for f in glob.glob(os.path.join(rd, "C*.md")):
@@ -21,7 +30,7 @@ for sec in secs:
     ids = re.findall(r"C\d\d", sec.split("\n", 1)[0])
     rep = [i for i in ids if i in latest]
     if m and ids and ids[0] in latest:
-        txt = open(latest[ids[0]]).read().strip() + "\n\n"
+        txt = sec12_text(latest[ids[0]])
         if not txt.startswith("### "):
             txt = sec.split("\n", 1)[0] + "\n" + txt
         out.append(txt); used.add(ids[0])
@@ -41,7 +50,7 @@ if extra:
     else:
         sep = ""
     for k in extra:
-        txt = open(latest[k]).read().strip() + "\n\n"
+        txt = sec12_text(latest[k])
         out.append(txt)
     out.append("---------------------------------------------------------------------------\n\n" if sep else "")
 open(p, "w").write(head + "".join(out) + tail)
